@@ -88,4 +88,39 @@ PowfParity(y) ==
        IF lt.k = "f" /\ ~DIntIsOdd(D(lt)) THEN "even" ELSE "odd"
 PowfParityExact(v) == IF ~DIsInt(v) THEN "nan" ELSE IF DIntIsOdd(v) THEN "odd" ELSE "even"
 PowfFlowBad(y) == IF PowfParity(y) = PowfParityExact(Value(y)) THEN {} ELSE {<<"powf_parity", y, PowfParity(y), PowfParityExact(Value(y))>>}
+
+\* ---- src/functions/explog.rs:135-149 mul_pow2, :1028-1063 exp2 --------------------------------
+\* The literal thresholds of the source are properties of binary64; the model uses the format's own:
+\*   -1074 -> QMIN (exponent of the least subnormal), -1022 -> EMIN, 1023 -> EMAX, 1024 -> EMAX + 1.
+\* from_bits(1 << (y + 1074)) and from_bits((y + 1023) << 52) are exactly 2^y.
+RECURSIVE MulPow2(_, _)
+MulPow2(x, y) ==
+  IF y < QMIN THEN MulPow2(FMul(x, RN(DPow2(QMIN))), y - QMIN)
+  ELSE IF y < EMAX + 1 THEN FMul(x, RN(DPow2(y)))
+  ELSE MulPow2(FMul(x, RN(DPow2(EMAX))), y - EMAX)
+\* the pinned code: Self { hi: mul_pow2(r1.hi, k), lo: mul_pow2(r1.lo, k) }
+Exp2ScaleOld(r1, k) == TF(MulPow2(r1.hi, k), MulPow2(r1.lo, k))
+\* the current code renormalises the two scaled words
+Exp2Scale(r1, k) == F2S(MulPow2(r1.hi, k), MulPow2(r1.lo, k))
+\* r1 is any normalised pair in [1/2, 2) (a superset of the values 2^t, |t| <= 1/2 + ulp, the kernel returns)
+Exp2ScaleBad(r1, k, res) ==
+  IF res.hi.k # "f" THEN (IF k + 1 >= EMAX THEN {} ELSE {<<"scale_overflow", r1, k, res>>})
+  ELSE (IF Normalised(res) THEN {} ELSE {<<"scaled_pair_not_normalised", r1, k, res>>})
+       \* each word is rounded at most once, and only below the normal range
+       \cup (IF res.lo.k = "f" /\ DCmpAbs(DSub(Value(res), DScale2(Value(r1), k)), DPow2(QMIN)) <= 0 THEN {} ELSE {<<"scaled_value", r1, k, res>>})
+       \cup (IF r1.hi.e + k >= QMIN /\ (IsZeroW(r1.lo) \/ r1.lo.e + k >= QMIN) /\ ~(res.lo.k = "f" /\ DCmp(Value(res), DScale2(Value(r1), k)) = 0) THEN {<<"scaling_not_exact", r1, k, res>>} ELSE {})
+
+\* the range switch and the reduction x = k + t of exp2
+Exp2K(x) == FRound(x.hi)
+Exp2T(x) == ASubTF(x, Exp2K(x))
+Exp2Branch(x) == IF CmpTFW(x, RN(DInt(QMIN))) = -1 THEN "zero" ELSE IF CmpTFW(x, RN(DInt(EMAX))) \in {0, 1} THEN "inf" ELSE "main"
+\* The kernel (Taylor series and nine squarings) is not modelled: whatever normalised pair in [1/2, 2) it returns
+\* is covered by Exp2ScaleBad, which quantifies over all of them; here the obligations of the reduction itself.
+Exp2FlowBad(x) ==
+  IF Exp2Branch(x) # "main" THEN {}
+  ELSE LET k == Exp2K(x)   t == Exp2T(x)   kd == D(k)
+       IN (IF DIsInt(kd) /\ DCmp(kd, DInt(QMIN)) >= 0 /\ DCmp(kd, DInt(EMAX)) <= 0 THEN {} ELSE {<<"k_outside_mul_pow2_single_step", x, k>>})
+          \cup (IF t.hi.k = "f" /\ t.lo.k = "f" /\ Valid(t) /\ DCmp(DAdd(Value(t), kd), Value(x)) = 0 THEN {} ELSE {<<"reduction_not_exact", x, k, t>>})
+          \* 2^t stays inside [1/2, 2): |t| <= 1/2 + half an ulp of the high word of x
+          \cup (IF t.hi.k = "f" /\ t.lo.k = "f" /\ DCmpAbs(Value(t), DAdd(DPow2(-1), DAbs(D(x.lo)))) <= 0 THEN {} ELSE {<<"reduced_argument_range", x, k, t>>})
 =============================================================================
